@@ -43,6 +43,9 @@ def _check(src, dst):
     if not _order_ok(src, dst, list(order)):
         return False
     names = [f"n{i}" for i in range(len(src) + 1)]
+    # history: a scorer for the SAME skeleton with its edges listed in reverse order is built first; nothing remembered from it (an order cached
+    # per edge set, say) may leak into the scorer under test
+    PAFScorer(part_names=names, edges=[(names[s], names[d]) for s, d in zip(src, dst)][::-1], pafs_stride=2)
     sc = PAFScorer(part_names=names, edges=[(names[s], names[d]) for s, d in zip(src, dst)], pafs_stride=2)
     return _order_ok(src, dst, list(sc.sorted_edge_inds)) and sc.n_edges == len(src) and sc.n_nodes == len(names)
 
